@@ -40,7 +40,9 @@ func VH_C15_recovery() {
 	nested := vx.Bool() // pass-through handlers call Next() explicitly (panic inside nested Next) or just return
 
 	envs := []EnvType{EnvTypeDev, EnvTypeProd, EnvTypeTest}
-	SetEnv(envs[envc])
+	// the mode that counts is the one in force when the panic happens: the
+	// application is built under another, symbolic, mode
+	SetEnv(envs[vx.Choice(3)])
 	defer SetEnv(EnvTypeDev)
 
 	f := NewWithLogger(io.Discard)
@@ -100,6 +102,7 @@ func VH_C15_recovery() {
 		f.Get("/", thrower)
 	}
 
+	SetEnv(envs[envc])
 	spy := &vSpy{}
 	req := &http.Request{Method: "GET", URL: &url.URL{Path: "/"}, Header: http.Header{}}
 	escaped := false
